@@ -8,6 +8,8 @@ pub mod c04;
 pub mod c05;
 pub mod c06;
 #[cfg(feature = "net")]
+pub mod c07;
+#[cfg(feature = "net")]
 pub mod c12;
 pub mod c13;
 pub mod c14;
@@ -24,6 +26,8 @@ pub fn dispatch(a: &Args) -> Option<Report> {
         "C04" => c04::run(a),
         "C05" => c05::run(a),
         "C06" => c06::run(a),
+        #[cfg(feature = "net")]
+        "C07" | "C08" => c07::run(a),
         #[cfg(feature = "net")]
         "C12" => c12::run(a),
         "C13" => c13::run(a),
